@@ -639,6 +639,7 @@ class Corr:
         self.ctx = ctx
         self.lines = []
         self.cbs = []
+        self.seen = {}
 
     def add(self, line, cb):
         self.lines.append(line)
@@ -651,8 +652,16 @@ class Corr:
         ok = impl.shape == model.shape and bool(np.all(np.abs(impl - model) <= tol))
         self.ctx.stat("model-vs-code:" + (key or note.split(":")[0]))
         if not ok:
-            self.ctx.disagree(case, impl.tolist(), model.tolist(), note)
+            self._disagree(case, impl.tolist(), model.tolist(), note)
         return ok
+
+    def _disagree(self, case, impl, model, note):
+        """register a disagreement; after 4 of the same kind only count (vcheck re-runs the oracle on every registered one)"""
+        self.seen[note] = self.seen.get(note, 0) + 1
+        if self.seen[note] <= 4:
+            self.ctx.disagree(case, impl, model, note)
+        else:
+            self.ctx.stat("model-vs-code:further-disagreements-not-listed")
 
     def run(self):
         outs = self.ctx.model(DRIVER, self.lines)
@@ -845,12 +854,12 @@ def corr_moments(co, case):
             co.ctx.stat("model-vs-code:" + opn + (":error" if I.is_err(r) else ""))
             if I.is_err(r) or "error" in o:
                 if not (I.is_err(r) and "error" in o and r["error"] == o["error"]):
-                    co.ctx.disagree(case, r, o, opn + ": error kinds differ")
+                    co._disagree(case, r, o, opn + ": error kinds differ")
                 return
             a = np.array([r["logmean"], r["logstd"]])
             b = np.array([unfrac(o["logmean"]), unfrac(o["logstd"])])
             if not np.all(np.abs(a - b) <= RTOL * (np.abs(a) + abs(math.log(m)) * 1e-3 + 1e-12)):
-                co.ctx.disagree(case, a.tolist(), b.tolist(), opn + ": model vs code")
+                co._disagree(case, a.tolist(), b.tolist(), opn + ": model vs code")
         co.add(dict(op=opn, mean=frac(m), std=frac(s)), cb)
 
 
@@ -869,7 +878,7 @@ def corr_interp(co, case):
         co.ctx.stat("model-vs-code:interpolator-grid(E)")
         mine = [unfrac(s) for s in o.get("xs", [])]
         if o.get("n") != len(xs) or mine != [float(v) for v in xs]:
-            co.ctx.disagree(case, dict(n=len(xs), first=float(xs[0]), last=float(xs[-1])),
+            co._disagree(case, dict(n=len(xs), first=float(xs[0]), last=float(xs[-1])),
                             dict(n=o.get("n"), first=mine[:1], last=mine[-1:]), "interpolator abscissae: exact model vs code")
     exact_grid = case.get("step") is not None or (case["num"] - 1) in (1, 2, 4, 8, 16, 32)
     if exact_grid:
@@ -887,7 +896,7 @@ def corr_interp(co, case):
         else:                                      # linspace grids: one rounded division per value
             ok = len(mine) == len(got) and bool(np.all(np.abs(np.array(mine) - np.array(got)) <= 1e-12 * (1 + np.abs(np.array(got)))))
         if not ok:
-            co.ctx.disagree(case, got, mine, "interp: exact piecewise-linear model vs interpolator")
+            co._disagree(case, got, mine, "interp: exact piecewise-linear model vs interpolator")
     co.add(dict(op="interp", xs=[frac(v) for v in xs], ys=[frac(v) for v in ys], x=[frac(v) for v in xq]), cb_y)
 
     def cb_inv(o):
@@ -895,7 +904,7 @@ def corr_interp(co, case):
         mine = np.array([unfrac(s) for s in o.get("x", [])])
         got = np.asarray(r["xinv"], dtype=float)
         if mine.shape != got.shape or not np.all(np.abs(mine - got) <= 1e-12 * (1 + np.abs(got))):
-            co.ctx.disagree(case, got.tolist(), mine.tolist(), "inverse_interp: exact model vs interpolator(return_inverse)")
+            co._disagree(case, got.tolist(), mine.tolist(), "inverse_interp: exact model vs interpolator(return_inverse)")
     co.add(dict(op="interpInv", xs=[frac(v) for v in xs], ys=[frac(v) for v in ys], y=[frac(v) for v in yq]), cb_inv)
 
 
